@@ -35,6 +35,15 @@ pub fn documents(thorough: bool) -> Vec<V> {
     out.push(m(vec![("k1", l(vec![])), ("k2", m(vec![]))]));
     out.push(m(vec![("k1", l(vec![l(vec![i(1), i(2)]), l(vec![])]))]));
     out.push(m(vec![("zeta", i(1)), ("alpha", i(2)), ("mid", i(3))]));
+    // a one-entry map with a null value next to lists (the shape the loader uses internally for `!Join [..]`), nulls and
+    // empty collections in every neighbouring position
+    let kn = || m(vec![("k", V::Null)]);
+    out.push(m(vec![("k1", l(vec![kn(), l(vec![i(1), i(2)]), s("end")]))]));
+    out.push(m(vec![("k1", l(vec![l(vec![i(1)]), kn(), l(vec![i(2)]), kn()]))]));
+    out.push(m(vec![("k1", l(vec![kn(), l(vec![]), kn(), m(vec![])]))]));
+    out.push(m(vec![("k1", l(vec![m(vec![("Fn::Join", V::Null)]), l(vec![s(","), l(vec![s("a")])])]))]));
+    out.push(m(vec![("k1", kn()), ("k2", l(vec![i(1)])), ("k3", V::Null), ("k4", l(vec![V::Null, l(vec![V::Null])]))]));
+    out.push(m(vec![("k1", l(vec![m(vec![("k", V::Null), ("j", i(1))]), l(vec![i(1)])]))]));
     out
 }
 
@@ -321,6 +330,28 @@ pub fn run(tier: &str) -> i32 {
     // ---- numbers beyond the 64-bit integer range: every loader reads them as the nearest float (never a wrapped integer)
     // (integers that do not fit 64 bits at all are outside the property's domain: serde_yaml rejects them, libyaml's loader reads a float)
     let big = ["9223372036854775808", "18446744073709551615", "9223372036854775807.0", "1e19", "12345678901234567890"];
+    // floats in every JSON-compatible spelling of the exponent
+    for raw in ["1e-7", "1.5e+300", "5E-324", "1E5", "-2.5e-3", "1e+2", "2.5E+10", "0.0e0", "-0.0", "1.0E-5"] {
+        let val = m(vec![("k1", f(raw.parse::<f64>().unwrap()))]);
+        let rules = "rule t0 { k1 is_float }\nrule t2 { k1 !is_int }\nrule t3 { k1 !is_string }\nrule dump { this == \"zzz-never-equal\" }\n".to_string();
+        let names = vec!["t0".to_string(), "t2".to_string(), "t3".to_string()];
+        for (layout, text) in [("json-floatspelling", format!("{{\"k1\":{}}}", raw)), ("flow-floatspelling", format!("{{k1: {}}}\n", raw)), ("block-floatspelling", format!("k1: {}\n", raw))] {
+            let mut sub = Acc::new();
+            observe(&val, &text, layout, &rules, &names, &mut sub);
+            for v in sub.viols {
+                if v.signature.starts_with("value-differs") {
+                    continue;
+                }
+                acc.violate(&format!("float-spelling:{}", v.signature), v.what, v.replay);
+            }
+            acc.traces += sub.traces;
+            for (k, c) in sub.outcomes {
+                *acc.outcomes.entry(k).or_insert(0) += c;
+            }
+        }
+    }
+    rep.states += 90;
+    rep.transitions += 90;
     for raw in big {
         let val = m(vec![("k1", f(raw.parse::<f64>().unwrap()))]);
         let rules = "rule t0 { k1 is_float }\nrule t1 { k1 > 9000000000000000000.0 or k1 < 0.0 }\nrule t2 { k1 !is_int }\nrule dump { this == \"zzz-never-equal\" }\n".to_string();
